@@ -480,6 +480,25 @@ func (d *Device) handleOpenrgb(ctx context.Context, wg *sync.WaitGroup) {
 
 	strip := NewDeviceLedStrip(ledstrip)
 
+	// setLed paints one LED of the frame; an index outside the frame (a controller reporting no LEDs) is ignored
+	setLed := func(id int, color openrgb.Color) {
+		if id >= 0 && id < len(ledArray) {
+			ledArray[id] = color
+		}
+	}
+	// paintAction paints the LED of the key bound to the action, if the action is bound and that key has an LED
+	paintAction := func(action config.Action, color openrgb.Color) {
+		code, ok := actionToEvcode[action]
+		if !ok {
+			return
+		}
+		id, ok := indexMap[code]
+		if !ok {
+			return
+		}
+		setLed(id, color)
+	}
+
 	log.Info(fmt.Sprintf("[OpenRGB] LED update loop started"), d.logFields(logger.Debug)...)
 
 	nextFailedLedUpdateReport := time.Now()
@@ -502,74 +521,76 @@ root:
 		}
 
 		for _, key := range strip.ledSeq {
-			ledArray[nameToIndex[key]] = openrgb.Color{}
+			if id, ok := nameToIndex[key]; ok {
+				setLed(id, openrgb.Color{})
+			}
 		}
 
-		ledArray[indexMap[actionToEvcode[config.Panic]]] = openrgb.Color{Red: 0xff}
+		paintAction(config.Panic, openrgb.Color{Red: 0xff})
 
-		ledArray[indexMap[actionToEvcode[config.OctaveUp]]] = white1
-		ledArray[indexMap[actionToEvcode[config.OctaveDown]]] = white1
+		paintAction(config.OctaveUp, white1)
+		paintAction(config.OctaveDown, white1)
 
 		if d.octave > 0 {
 			if d.octave == 1 {
-				ledArray[indexMap[actionToEvcode[config.OctaveUp]]] = white2
+				paintAction(config.OctaveUp, white2)
 			} else {
-				ledArray[indexMap[actionToEvcode[config.OctaveUp]]] = white3
+				paintAction(config.OctaveUp, white3)
 			}
 		}
 		if d.octave < 0 {
 			if d.octave == -1 {
-				ledArray[indexMap[actionToEvcode[config.OctaveDown]]] = white2
+				paintAction(config.OctaveDown, white2)
 			} else {
-				ledArray[indexMap[actionToEvcode[config.OctaveDown]]] = white3
+				paintAction(config.OctaveDown, white3)
 			}
 		}
 
-		ledArray[indexMap[actionToEvcode[config.SemitoneUp]]] = white1
-		ledArray[indexMap[actionToEvcode[config.SemitoneDown]]] = white1
+		paintAction(config.SemitoneUp, white1)
+		paintAction(config.SemitoneDown, white1)
 		if d.semitone > 0 {
 			if d.semitone == 1 {
-				ledArray[indexMap[actionToEvcode[config.SemitoneUp]]] = white2
+				paintAction(config.SemitoneUp, white2)
 			} else {
-				ledArray[indexMap[actionToEvcode[config.SemitoneUp]]] = white3
+				paintAction(config.SemitoneUp, white3)
 			}
 		}
 		if d.semitone < 0 {
 			if d.semitone == -1 {
-				ledArray[indexMap[actionToEvcode[config.SemitoneDown]]] = white2
+				paintAction(config.SemitoneDown, white2)
 			} else {
-				ledArray[indexMap[actionToEvcode[config.SemitoneDown]]] = white3
+				paintAction(config.SemitoneDown, white3)
 			}
 		}
 
-		ledArray[indexMap[actionToEvcode[config.MappingUp]]] = white3
-		ledArray[indexMap[actionToEvcode[config.MappingDown]]] = white3
+		paintAction(config.MappingUp, white3)
+		paintAction(config.MappingDown, white3)
 		if d.mapping == 0 {
-			ledArray[indexMap[actionToEvcode[config.MappingDown]]] = white1
+			paintAction(config.MappingDown, white1)
 		}
 		if d.mapping == len(d.config.KeyMappings)-1 {
-			ledArray[indexMap[actionToEvcode[config.MappingUp]]] = white1
+			paintAction(config.MappingUp, white1)
 		}
 
 		chanColor := channelColors[d.channel]
-		ledArray[indexMap[actionToEvcode[config.ChannelUp]]] = chanColor
-		ledArray[indexMap[actionToEvcode[config.ChannelDown]]] = chanColor
+		paintAction(config.ChannelUp, chanColor)
+		paintAction(config.ChannelDown, chanColor)
 		if d.channel == 0 {
-			ledArray[indexMap[actionToEvcode[config.ChannelDown]]] = openrgb.Color{
+			paintAction(config.ChannelDown, openrgb.Color{
 				Red:   chanColor.Red / 3,
 				Green: chanColor.Green / 3,
 				Blue:  chanColor.Blue / 3,
-			}
+			})
 		}
 		if d.channel == 15 {
-			ledArray[indexMap[actionToEvcode[config.ChannelUp]]] = openrgb.Color{
+			paintAction(config.ChannelUp, openrgb.Color{
 				Red:   chanColor.Red / 3,
 				Green: chanColor.Green / 3,
 				Blue:  chanColor.Blue / 3,
-			}
+			})
 		}
 
-		ledArray[indexMap[actionToEvcode[config.Multinote]]] = white1
+		paintAction(config.Multinote, white1)
 
 		var hsvOfsset float64
 
